@@ -230,6 +230,64 @@ theorem decode_perm (F : Facts03) (cfg : Cfg) (fields : List Fld) (doc doc' : Do
   unfold decode
   rw [sortDoc_perm F doc doc' hp hn]
 
+theorem nativeOf_soft_ok (F : Facts03) (nillable : Bool) (p : PK) (v : Option Text) (n : Leaf)
+    (h : nativeOf F true nillable p v = .ok n) : nativeOf F false nillable p v = .ok n := by
+  unfold nativeOf at h ⊢
+  simp only [Bool.true_and, Bool.false_and, Bool.false_eq_true, if_false] at h ⊢
+  split at h
+  · exact absurd h (by simp)
+  · cases hl : leafFrom F p v with
+    | ok x =>
+      rw [hl] at h
+      simp only [obind_ok] at h ⊢
+      split at h
+      · exact absurd h (by simp)
+      · exact h
+    | fault => rw [hl] at h; exact absurd h (by simp)
+    | crash e => rw [hl] at h; exact absurd h (by simp)
+
+theorem toNative_soft_ok (F : Facts03) (nillable : Bool) (p : PK) (vs : List (Option Text)) (ns : List Leaf)
+    (h : toNative F true nillable p vs = .ok ns) : toNative F false nillable p vs = .ok ns := by
+  induction vs generalizing ns with
+  | nil => exact h
+  | cons v r ih =>
+    simp only [toNative] at h ⊢
+    obtain ⟨x, hx, h2⟩ := obind_eq_ok.mp h
+    obtain ⟨xs, hxs, h3⟩ := obind_eq_ok.mp h2
+    rw [nativeOf_soft_ok F nillable p v x hx, obind_ok, ih xs hxs, obind_ok]
+    exact h3
+
+theorem stepKey_soft_ok (F : Facts03) (strict : Bool) (delim : Text) (fields : List Fld)
+    (table : List (Text × Member)) (st st' : Attrs × List Ev) (kv : Text × List (Option Text))
+    (h : stepKey F ⟨strict, true, delim⟩ fields table st kv = .ok st') :
+    stepKey F ⟨strict, false, delim⟩ fields table st kv = .ok st' := by
+  unfold stepKey at h ⊢
+  cases hg : stiGet table (stripIdx kv.1) with
+  | none => rw [hg] at h; exact h
+  | some mem =>
+    rw [hg] at h
+    simp only at h ⊢
+    cases hp : mem.prim with
+    | none => rw [hp] at h; exact h
+    | some p =>
+      rw [hp] at h
+      simp only at h ⊢
+      obtain ⟨vs, hvs, h2⟩ := obind_eq_ok.mp h
+      rw [toNative_soft_ok F mem.nillable p kv.2 vs hvs, obind_ok]
+      exact h2
+
+theorem foldO_stepKey_soft_ok (F : Facts03) (strict : Bool) (delim : Text) (fields : List Fld)
+    (table : List (Text × Member)) (doc : Doc) (st st' : Attrs × List Ev)
+    (h : foldO (stepKey F ⟨strict, true, delim⟩ fields table) st doc = .ok st') :
+    foldO (stepKey F ⟨strict, false, delim⟩ fields table) st doc = .ok st' := by
+  induction doc generalizing st with
+  | nil => exact h
+  | cons kv r ih =>
+    simp only [foldO_cons] at h ⊢
+    obtain ⟨s1, hs1, h2⟩ := obind_eq_ok.mp h
+    rw [stepKey_soft_ok F strict delim fields table st s1 kv hs1, obind_ok]
+    exact ih s1 h2
+
 /-- soft validation only ever rejects: what it accepts is what the unvalidated decoder returns
     (any facts, any document, any signature) -/
 theorem decode_soft_ok (F : Facts03) (strict : Bool) (delim : Text) (fields : List Fld) (doc : Doc) (v : Node)
@@ -240,17 +298,11 @@ theorem decode_soft_ok (F : Facts03) (strict : Bool) (delim : Text) (fields : Li
   · exact absurd h (by simp)
   · rename_i hc
     simp only [hc, if_false] at ⊢
-    have e : stepKey F ⟨strict, true, delim⟩ fields = stepKey F ⟨strict, false, delim⟩ fields := rfl
-    rw [← e]
-    cases hf : foldO (stepKey F ⟨strict, true, delim⟩ fields (stiFields delim [] fields)) (freshAttrs fields, [])
-        (sortDoc F doc) with
-    | ok r =>
-      rw [hf] at h
-      simp only [obind_ok, Bool.true_and, Bool.false_and, Bool.false_eq_true, if_false] at h ⊢
-      split at h
-      · exact absurd h (by simp)
-      · exact h
-    | fault => rw [hf] at h; exact absurd h (by simp)
-    | crash e' => rw [hf] at h; exact absurd h (by simp)
+    obtain ⟨r, hr, h2⟩ := obind_eq_ok.mp h
+    rw [foldO_stepKey_soft_ok F strict delim fields _ _ _ r hr, obind_ok]
+    simp only [Bool.true_and, Bool.false_and, Bool.false_eq_true, if_false] at h2 ⊢
+    split at h2
+    · exact absurd h2 (by simp)
+    · exact h2
 
 end SpyneModel.Flat
